@@ -79,7 +79,18 @@ fn make_event(m: &sim::Model, inv: &crate::maps::Inv, rng: &mut Rng, kind: u64, 
     } else {
         banks.extend(event::pad_banks_varied(inv, &pads, 700, rng, Some((idx / 2 + 7) as usize)));
     }
-    banks.push(event::trg_bank(1000 + idx as u32));
+    {
+        // the TRG packet's payload fields (firmware revision, counters, bitmaps) differ from event to event: none of them
+        // may decide how the other banks are read
+        let mut t = crate::enc::Trg::simple(1000 + idx as u32, *rng.pick(&[77u32, 0, 0x0FFF_FFFF, 0x1234_5678]));
+        t.fw = *rng.pick(&[0x12345678u32, 0, 14, 0x5f00_0000, 0x6594_29ff, 0x6594_2a00, 0x66a1_07b5, 0x7fff_ffff, 0xffff_ffff]);
+        if idx % 3 == 2 {
+            t.fw = rng.next() as u32;
+        }
+        t.pulser = rng.next() as u32;
+        t.trigger_bitmap = rng.next() as u32;
+        banks.push(("ATAT".to_string(), t.encode()));
+    }
     let what = match kind {
         0 | 1 | 2 => "valid multi-track event",
         3 => {
@@ -245,6 +256,20 @@ fn make_event(m: &sim::Model, inv: &crate::maps::Inv, rng: &mut Rng, kind: u64, 
             }
             "PWB message with the end-of-message flag on an intermediate chunk too"
         }
+        21 => {
+            // a complete, valid message from a board that exists but is not installed for this run (its position is
+            // unknown): the event fails, whichever group is looked at first
+            let installed: Vec<String> = inv.pad.iter().flat_map(|c| c.iter().map(|p| p.0.clone())).collect();
+            if let Some(b) = crate::refs::PWB_BOARDS.iter().find(|b| !installed.iter().any(|n| n == b.0)) {
+                let p = crate::enc::Pwb::new('B', b.1, 200, vec![(5, vec![1725; 200]), (6, vec![1725; 200])]);
+                for c in p.chunks(crate::refs::pwb_device_id(&b.1), 1, 700) {
+                    banks.insert(banks.len() / 2, (format!("PC{}", b.0), c.encode()));
+                }
+            } else {
+                banks.retain(|b| b.0 != "ATAT");
+            }
+            "valid PWB message from a board not installed for the run"
+        }
         20 => {
             // one chunk (not the first) of a multi-chunk PWB message travels in a bank named for another known board
             let mut done = false;
@@ -347,7 +372,7 @@ fn run(ctx: &mut Ctx) {
     // a real-data run: other pad map, calibration files with gaps (a channel without calibration must fail the build in
     // every order and every process alike)
     let inv_real = crate::maps::inverse(11500);
-    let n_events = ctx.tier.pick(34, 120);
+    let n_events = ctx.tier.pick(35, 120);
     let shard = ctx.shard as u64;
     // NOTE: every shard processes *all* events (the comparison across processes is the point);
     // only the permutations differ between shards.
@@ -361,10 +386,10 @@ fn run(ctx: &mut Ctx) {
         }
         ctx.cur_case = i;
         let mut rng = ctx.rng_for("events", i);
-        // the 21 kinds once each, then valid events only (odd ones with per-packet metadata, the spread of the PWB trigger
+        // the 22 kinds once each, then valid events only (odd ones with per-packet metadata, the spread of the PWB trigger
         // timestamps cycling through 8, 0, 4, 1, 9, 1000, 5, unrelated)
-        let run_no: u32 = if i >= 21 && i % 4 == 2 { 11500 } else { u32::MAX };
-        let (banks, what) = make_event(&m, if run_no == u32::MAX { &inv } else { &inv_real }, &mut rng, if i < 21 { i } else { 0 }, i);
+        let run_no: u32 = if i >= 22 && i % 4 == 2 { 11500 } else { u32::MAX };
+        let (banks, what) = make_event(&m, if run_no == u32::MAX { &inv } else { &inv_real }, &mut rng, if i < 22 { i } else { 0 }, i);
         let what = if run_no == u32::MAX { what } else { "valid multi-track event under a real run number" };
         let groups = {
             let mut g: Vec<&str> = banks.iter().filter(|b| b.0.starts_with("PC")).map(|b| &b.0[..]).collect();
